@@ -19,6 +19,14 @@ M=[
   'if self.required_warm_peers() > 0 && self.cold_peers.contains(pid) {','if self.cold_peers.contains(pid) {','promote to warm beyond the limit'),
  ('C27','pv-net2','pallas-network2','pallas-network2/src/behavior/initiator/promotion.rs',
   '        self.cold_peers.remove(pid);\n        self.banned_peers.insert(pid.clone());','        self.banned_peers.insert(pid.clone());','ban keeps the peer in the cold set'),
+ ('C27','pv-net2','pallas-network2','pallas-network2/src/behavior/initiator/promotion.rs',
+  '        self.hot_peers.remove(pid);\n        self.warm_peers.remove(pid);\n        self.cold_peers.insert(pid.clone());','        self.hot_peers.remove(pid);\n        self.cold_peers.insert(pid.clone());','demote leaves the peer in the warm set'),
+ ('C34','pv-validate','pallas-validate','pallas-validate/src/utils.rs',
+  '(Value::Coin(f), Value::Coin(s)) => f == s,','(Value::Coin(f), Value::Coin(s)) => f != s,','ada-only values compared with != (shelley-ma..babbage)'),
+ ('C35','pv-validate','pallas-validate','pallas-validate/src/utils.rs',
+  'vk_wit.signature.len() != Signature::SIZE {\n        return false;','vk_wit.signature.len() != Signature::SIZE {\n        return true;','verify_signature: wrong-length key or signature counts as valid'),
+ ('C04','pv-codec','pallas-codec','pallas-codec/src/utils.rs',
+  'impl TryFrom<u64> for PositiveCoin {\n    type Error = u64;\n\n    fn try_from(value: u64) -> Result<Self, Self::Error> {\n        if value == 0 {','impl TryFrom<u64> for PositiveCoin {\n    type Error = u64;\n\n    fn try_from(value: u64) -> Result<Self, Self::Error> {\n        if value == 1 {','PositiveCoin::try_from refuses 1 instead of 0'),
  ('C29','pv-net2','pallas-network2','pallas-network2/src/behavior/initiator/discovery.rs',
   'let amount = self.config.high_water_mark as usize - self.discovered.len();','let amount = 64usize - self.discovered.len();','peer request amount can underflow'),
  ('C24','pv-net2','pallas-network2','pallas-network2/src/protocol/chainsync.rs',
@@ -56,4 +64,7 @@ for cid,grp,crate,f,old,new,desc in M:
     sigs=sorted(set(re.findall(r'^\['+cid+r':[^\]]+\] (.+?) — ',out,re.M)))
     res.append((cid,desc,'exit=%d'%rc,sigs[:4])); print(res[-1],flush=True)
 sh('git checkout -- .',cwd=WT)
-json.dump([{'property':r[0],'mutant':r[1],'result':r[2],'signatures':(r[3] if len(r)>3 else [])} for r in res],open('/verif/seeded/_self/results.json','w'),indent=1)
+prev=[]
+if only and os.path.exists('/verif/seeded/_self/results.json'):
+    prev=[x for x in json.load(open('/verif/seeded/_self/results.json')) if x['property'] not in only]
+json.dump(prev+[{'property':r[0],'mutant':r[1],'result':r[2],'signatures':(r[3] if len(r)>3 else [])} for r in res],open('/verif/seeded/_self/results.json','w'),indent=1)
